@@ -13,7 +13,8 @@
 //   rbadr <id> / rbadp <id>    same with an unparseable receiver / an undecodable payload
 //   rtell <k> <ids>            real RemoteTell (coalescer + TCP loop-back) to the missing `ghost`, then a sentinel
 //   batch <k> <specs>          enqueueCoalescedFailure with the real drain goroutine, then a sentinel batch (receiver s<k>)
-//   mq <cap> / mbatch <specs> / mdrain    fan-out queue without consumer: hand-offs, then the real drain loop on demand
+//   mq <cap> / mbatch <specs> / mdrain    fan-out queue without consumer: hand-offs (inline publication when it is full),
+//                              then the real drain loop on demand
 //   count                      ActorSystem.Metric().DeadlettersCount()
 //   par <ev> | <ev> | …        the listed events run concurrently
 // specs: g<id> good (sender A), n<id> good without sender, r<id> unparseable receiver, p<id> undecodable payload
